@@ -72,6 +72,8 @@ class Check:
     def rule(self, name, text):
         self.rules.setdefault(name, {'text': text, 'instances': 0, 'satisfied': 0, 'refuted': 0,
                                      'undecided': 0, 'samples': []})
+        if text and not self.rules[name]['text']:
+            self.rules[name]['text'] = text
         return name
 
     def instance(self, rule, desc, status='satisfied'):
